@@ -63,7 +63,7 @@ def run_spin(fkind, d, timeout, stop_at, extra, selectable, preset, second):
 
         if stop_at < 4:
             # models a signal handler / user code calling reactor.stop() at that instant
-            reactor.callLater(stop_at, lambda: reactor.stop())
+            reactor.interrupt_at(stop_at)
         outcome = None
         try:
             outcome = ("returned", spinner.run(timeout, function))
